@@ -113,6 +113,9 @@ class EditGen:
         if 'options.bfg' in self.proj.scripts and \
            os.path.exists(self.world.s('options.bfg')):
             kinds += ['lose_options']
+        if 'options.late' in self.proj.features and \
+           not os.path.exists(self.world.s('options.bfg')):
+            kinds += ['create_options'] * 3
         if rfiles:
             kinds += ['remove_file'] * 4 + ['rename_file'] * 2 + \
                 ['move_file'] * 2 + ['file_to_dir']
@@ -155,6 +158,10 @@ class EditGen:
             line = "{0} = submodule('{0}')\n".format(name)
             return [['write', 'build.bfg', text.replace(line, '')],
                     ['remove', name]], 'remove_submodule'
+        if k == 'create_options':
+            # the project gets an options.bfg only now
+            return [['write', 'options.bfg',
+                     "argument('late', default='7')\n"]], 'create_options'
         if k == 'lose_options':
             # an input of the regenerate step vanishes while the main script
             # is untouched (fresh configure may or may not still work)
@@ -330,6 +337,13 @@ class C08History:
         feats = {'backend=' + sim.backend, 'via=' + kind,
                  'clock=' + sim.cfg.get('clock_mode', 'strict')}
         feats |= {'proj.' + f for f in sim.proj.features}
+        if 'options.late' in sim.proj.features and \
+           os.path.exists(sim.world.s('options.bfg')):
+            bf = sim.world.read_build(sim.buildfile) or ''
+            if 'options.bfg' not in bf:
+                # an options.bfg that appeared after the build files were
+                # written: nothing the backend reads mentions it
+                feats.add('unwatched-new-options-file')
         outcomes = [i.get('outcome') for i in r.inv]
         self.trace.append(['regen', kind, r.status, outcomes])
         if any(o == 'full' for o in outcomes) or \
@@ -460,7 +474,12 @@ class C08History:
                 self.nontrivial = True
             self.regen_oracle(r, idx, 'build')
         elif k == 'bfg':
-            r = sim.bfg(op[1])
+            # '$BUILD' stands for this world's build directory (an absolute
+            # path of the world that recorded the history is mapped as well)
+            args = [sim.world.build if a == '$BUILD' or re.match(
+                r'^/.*/w(\d+|min\d*|replay\d*)?[^/]*/build$', a) else a
+                for a in op[1]]
+            r = sim.bfg(args)
             self.regen_oracle(r, idx, 'explicit' +
                               ('-lazy' if '--lazy' in op[1] else ''))
         else:
@@ -538,12 +557,27 @@ def run_case(seed, root, params=None):
             if x < 0.8:
                 return ['build']
             if x < 0.9:
-                return ['bfg', ['regenerate', '--lazy', sim.world.build]]
-            return ['bfg', ['regenerate', sim.world.build]]
+                return ['bfg', ['regenerate', '--lazy', '$BUILD']]
+            return ['bfg', ['regenerate', '$BUILD']]
 
         if rng.random() < 0.5:
             if do(['build'] if rng.random() < 0.5 else ['regen']):
                 return
+        if proj.toolchain and rng.random() < params.get('strip', 0.15):
+            # the settings of the toolchain file are taken back one by one,
+            # each followed by a regeneration that has to forget it
+            text = sim.world.read(proj.toolchain)
+            lines = text.rstrip('\n').split('\n')
+            order = list(range(1, len(lines)))
+            rng.shuffle(order)
+            sim.count('phased.strip_toolchain')
+            gone = set()
+            for i in order:
+                gone.add(i)
+                new = '\n'.join(l for j, l in enumerate(lines)
+                                if j not in gone) + '\n'
+                if do(['write', proj.toolchain, new]) or do(regen_op()):
+                    return
         if rng.random() < params.get('phased', 0.1):
             # a phased history: the script stops using a feature that has
             # bookkeeping of its own in the build directory, later a new
@@ -577,9 +611,9 @@ def run_case(seed, root, params=None):
             elif x < 0.8:
                 op = ['build']
             elif x < 0.9:
-                op = ['bfg', ['regenerate', '--lazy', sim.world.build]]
+                op = ['bfg', ['regenerate', '--lazy', '$BUILD']]
             else:
-                op = ['bfg', ['regenerate', sim.world.build]]
+                op = ['bfg', ['regenerate', '$BUILD']]
             if do(op):
                 return
 
